@@ -39,3 +39,4 @@ import GridVerif.Props.C10.Ctor
 #print axioms GridVerif.C10.gen_localgrid_of_query
 #print axioms GridVerif.C10.gen_localgrid_of_query_inf
 #print axioms GridVerif.C10.gen_tree_args_exact
+#print axioms GridVerif.C10.gen_dispatch_pinned
